@@ -7,6 +7,7 @@ import (
 	"fmt"
 	"io"
 	"io/fs"
+	"math"
 	"os"
 	"path/filepath"
 	"runtime"
@@ -200,7 +201,9 @@ func (viso *VirtualISO) buildFSStructures(volumeName string) error {
 	jolietLBA := isoLBA + viso.rootDir.size(false).sectors()
 	filesLBA := jolietLBA + viso.rootDir.size(true).sectors()
 
-	viso.calculateSizes(filesLBA)
+	if err := viso.calculateSizes(filesLBA); err != nil {
+		return err
+	}
 
 	viso.makeVolumeDescriptors(volumeName)
 
@@ -268,8 +271,14 @@ func (viso *VirtualISO) scanDirectory() error {
 				modTime: itemStat.ModTime(),
 			}
 
+			// sector numbers are 32-bit in ISO9660 (and int32 here): bigger trees can't be represented
+			fileSectors := int64((fi.size + sectorSize - 1) / sectorSize)
+			if int64(viso.filesSizeSectors)+fileSectors > math.MaxInt32 {
+				return fmt.Errorf("item %s: files are too large for ISO image", fullPath)
+			}
+
 			dirItem.files = append(dirItem.files, fi)
-			viso.filesSizeSectors += fi.size.sectors()
+			viso.filesSizeSectors += sizeSectors(fileSectors)
 		}
 
 		viso.rootDir = append(viso.rootDir, dirItem)
@@ -460,7 +469,11 @@ func (viso *VirtualISO) makePathTable(joliet bool) (pathTable, error) {
 	return ret, nil
 }
 
-func (viso *VirtualISO) calculateSizes(filesLBA sizeSectors) {
+func (viso *VirtualISO) calculateSizes(filesLBA sizeSectors) error {
+	if int64(filesLBA)+int64(viso.filesSizeSectors)+2*int64(basePadSectors) > math.MaxInt32 {
+		return fmt.Errorf("files are too large for ISO image")
+	}
+
 	// in sectors
 	volumeSize := filesLBA + viso.filesSizeSectors
 	padSectors := basePadSectors
@@ -477,6 +490,8 @@ func (viso *VirtualISO) calculateSizes(filesLBA sizeSectors) {
 	viso.totalSize = volumeSizeWithPad.bytes()
 	viso.padAreaStart = volumeSize.bytes()
 	viso.padAreaSize = padSectors.bytes()
+
+	return nil
 }
 
 func (viso *VirtualISO) makeVolumeDescriptors(volumeName string) {
